@@ -908,6 +908,8 @@ type c19call struct {
 	inv, ret int64
 	code     int
 	panicked string
+	started  bool
+	done     bool
 }
 
 func c19Concurrent(x *xctx) *violation {
@@ -941,6 +943,17 @@ func c19Concurrent(x *xctx) *violation {
 	calls := make([][]c19call, ntasks)
 	var pre settingsModel
 	var viol *violation
+	// Optionally the process is killed at a seeded I/O call while the
+	// requests are in flight (thorough tier: more often).
+	crashAt, crashKind := -1, simos.FCrashBefore
+	crashPct := 25
+	if x.tier == "thorough" {
+		crashPct = 45
+	}
+	if t.Bool(simrt.KFault, crashPct) {
+		crashAt = t.Choose(simrt.KFault, 12*total)
+		crashKind = []int{simos.FCrashBefore, simos.FCrashAfter, simos.FCrashMid}[t.Choose(simrt.KFault, 3)]
+	}
 	res, err := withWeb(x, cfg, c19ProfBytes, func(s *c19session) {
 		model := settingsModel{}
 		for _, o := range prefix {
@@ -951,18 +964,26 @@ func c19Concurrent(x *xctx) *violation {
 			}
 		}
 		pre = model
+		if crashAt >= 0 {
+			simos.MarkBase()
+			simos.SetPlan([]simos.Fault{{At: int64(crashAt), Kind: crashKind, Arg: 1 + crashAt%97}})
+		}
 		var hs []*simrt.Handle
 		for i := range perTask {
 			i := i
 			calls[i] = make([]c19call, len(perTask[i]))
+			for j, o := range perTask[i] {
+				calls[i][j].op = o
+			}
 			hs = append(hs, simrt.GoJoinable(fmt.Sprintf("client%d", i), func() {
 				for j, o := range perTask[i] {
 					c := &calls[i][j]
-					c.op = o
 					c.inv = simrt.Seq()
+					c.started = true
 					r := s.do(o.target())
 					c.ret = simrt.Seq()
 					c.code, c.panicked = r.Code, r.Panic
+					c.done = true
 				}
 			}))
 		}
@@ -970,24 +991,63 @@ func c19Concurrent(x *xctx) *violation {
 			simrt.Join(h)
 		}
 	})
+	simos.SetPlan(nil)
 	if viol != nil {
 		return viol
 	}
-	if err != nil {
-		return violf("pprof-error", "PProf returned %v", err)
-	}
-	if v := resultViolation(res); v != nil {
-		return v
+	killed := res.Verdict == simrt.Killed
+	if !killed {
+		if err != nil {
+			return violf("pprof-error", "PProf returned %v", err)
+		}
+		if v := resultViolation(res); v != nil {
+			return v
+		}
 	}
 	var flat []c19call
 	for i := range calls {
 		for _, c := range calls[i] {
-			if c.panicked != "" {
+			if c.panicked != "" && !killed {
 				return violf("panic", "%s panicked: %s", c.op, c.panicked)
 			}
+			if !c.started {
+				continue // never issued before the process died
+			}
 			flat = append(flat, c)
-			x.tr("client%d %s -> %d  [inv %d, ret %d]", i, c.op, c.code, c.inv, c.ret)
+			if c.done {
+				x.tr("client%d %s -> %d  [inv %d, ret %d]", i, c.op, c.code, c.inv, c.ret)
+			} else {
+				x.tr("client%d %s in flight when the process was killed [inv %d]", i, c.op, c.inv)
+			}
 		}
+	}
+	if killed {
+		x.probe("killed_during_concurrent_requests")
+		x.tr("process killed: %s at I/O call %d of the concurrent phase", simos.FaultName(crashKind), crashAt)
+		final, raw, derr := readState()
+		if derr != nil {
+			return violf("torn-after-crash", "killed (%s at I/O call %d) during concurrent requests %v: settings.json does not decode (%v): %q", simos.FaultName(crashKind), crashAt, callStrings(flat), derr, short(raw, 160))
+		}
+		if !linearizable(pre, flat, final.String()) {
+			return violf("acknowledged-lost-after-crash", "killed during concurrent requests %v from state %s: settings.json holds %s, which no order of the acknowledged requests plus any subset of the in-flight ones explains", callStrings(flat), pre, final)
+		}
+		// restart: a following save must work
+		simrt.ReinitAll()
+		simos.Setenv("HOME", simHome)
+		probeOp := c19op{Kind: "save", Name: "probe", Params: map[string]string{"f": "probe"}}
+		res2, _ := withWeb(x, simrt.Config{Strategy: simrt.StratRunToBlock}, c19ProfBytes, func(s *c19session) {
+			viol = c19Liveness(x, s, probeOp, "kill during concurrent requests", true)
+		})
+		if viol != nil {
+			return viol
+		}
+		if v := resultViolation(res2); v != nil {
+			return v
+		}
+		x.nontriv[fmt.Sprintf("conc-crash:%s:%v:%d", pre, callStrings(flat), crashAt)] = true
+		x.states[final.String()] = true
+		x.sample = map[string]interface{}{"mode": "concurrent+kill", "initial": pre.String(), "history": callStrings(flat), "killed_at_io_call": crashAt, "final": final.String()}
+		return nil
 	}
 	final, raw, derr := readState()
 	if derr != nil {
@@ -1019,7 +1079,11 @@ func c19Concurrent(x *xctx) *violation {
 func callStrings(cs []c19call) []string {
 	var out []string
 	for _, c := range cs {
-		out = append(out, fmt.Sprintf("%s->%d", c.op, c.code))
+		if c.done {
+			out = append(out, fmt.Sprintf("%s->%d", c.op, c.code))
+		} else {
+			out = append(out, fmt.Sprintf("%s->(in flight)", c.op))
+		}
 	}
 	return out
 }
@@ -1039,10 +1103,26 @@ func linearizable(init settingsModel, calls []c19call, final string) bool {
 			if used[i] {
 				continue
 			}
+			if !calls[i].done {
+				// In flight when the process died: it may or may not have taken
+				// effect, and nothing was acknowledged.
+				used[i] = true
+				if rec(m, done+1) {
+					used[i] = false
+					return true
+				}
+				next, _ := m.apply(calls[i].op)
+				if rec(next, done+1) {
+					used[i] = false
+					return true
+				}
+				used[i] = false
+				continue
+			}
 			// i may go next only if no unused call returned before i was invoked.
 			ok := true
 			for j := 0; j < n; j++ {
-				if j != i && !used[j] && calls[j].ret < calls[i].inv {
+				if j != i && !used[j] && calls[j].done && calls[j].ret < calls[i].inv {
 					ok = false
 				}
 			}
